@@ -55,6 +55,8 @@ func runC06(c *core.Ctx) {
 	c06R6(c)
 	c06R7(c)
 	c06Limit(c, "C06.R9")
+	jsonTargetRule(c, "C06.R10", "service/history")
+	c06Survey(c, "C06.R11")
 }
 
 // qField: v is a load of q.<field> where q is the lookup query (free variable or parameter).
@@ -989,4 +991,34 @@ func c06Limit(c *core.Ctx, rule string) {
 	if n == 0 {
 		c.Undecided(rule, "writes", token.NoPos, "no write of lookupQuery.Limit found (the constructor should set it)")
 	}
+}
+
+// c06Survey: a history query always asks the cluster. A message is stored only on the broker
+// its publisher was connected to, so the local store alone cannot know the most recent N: every
+// return of SSD.Query lies behind the decision `s.survey != nil` (and, when a surveyor is
+// configured and the request marshals, behind survey.Query) — no fast path returns the local
+// frame first.
+func c06Survey(c *core.Ctx, rule string) {
+	c.Rule(rule, "SSD.Query: no return before the survey request is built / the surveyor is looked at; under survey != nil and a marshalled request, survey.Query is called before any return", 2)
+	f := fn(c, rule, "internal/provider/storage", "SSD", "Query")
+	if f == nil {
+		return
+	}
+	isSurveyLoad := func(i ssa.Instruction) bool {
+		u, ok := i.(*ssa.UnOp)
+		if !ok || u.Op != token.MUL {
+			return false
+		}
+		_, fl, _, isF := eng.FieldOf(u.X)
+		return isF && fl == "survey"
+	}
+	decision := func(i ssa.Instruction) bool {
+		// the survey request being built (a request that cannot be marshalled is not sent) or
+		// the surveyor being looked at
+		return isSurveyLoad(i) || eng.IsCallTo(i, "github.com/kelindar/binary.Marshal")
+	}
+	early, w := eng.Reach(f, nil, decision, eng.IsReturn)
+	c.Check(!early, rule, fnName(f)+":asks the cluster before answering", f.Pos(), "every return lies behind the surveyor decision", fmt.Sprintf("SSD.Query can return before deciding whether to survey the cluster (e.g. when the local store already fills the limit): newer matching messages stored on other brokers are then missing from the last N: %v", w))
+	qs := eng.Calls(f, false, M+"service.Surveyor.Query")
+	c.Check(len(qs) >= 1, rule, fnName(f)+":surveys", f.Pos(), "the cluster is surveyed", "SSD.Query no longer calls Surveyor.Query")
 }
